@@ -1001,6 +1001,27 @@ func main() {
 		r.reevent(*in)
 	case "list":
 		r.list(corpus)
+	case "fens":
+		// plain FEN lines (one per line) of generated valid positions and of positions along random games
+		w.Flush()
+		for i := 0; i < *n; {
+			b, err := board.FromFEN(r.source(corpus, false))
+			if err != nil {
+				continue
+			}
+			for ply := 0; ply < 12 && i < *n; ply++ {
+				if b.FiftyCnt <= 100 {
+					fmt.Fprintln(w, b.FEN())
+					i++
+				}
+				lm := proj.Playable(b, r.ms)
+				if len(lm) == 0 {
+					break
+				}
+				b.MakeMove(r.pick(b, lm))
+			}
+		}
+		return
 	default:
 		panic("unknown mode")
 	}
